@@ -160,6 +160,17 @@ def run_stack(flavour: int, d0: int, d1: int, d2: int, d3: int, d4: int, d5: int
                     ok = False
             elif got[0] != "ret" or got[1] is not w.result:
                 ok = False
+    # no decorator of the stack is dropped: every foreign wrapper above the one checker runs exactly once, those
+    # below it exactly once iff the call gets past the preconditions
+    contract_pos = [p for p, sy in enumerate(seq) if SYM[sy] in ("require", "ensure")]
+    checker_pos = contract_pos[0] if contract_pos else None
+    for p, sy in enumerate(seq):
+        if SYM[sy] != "foreign":
+            continue
+        n = sum(1 for e in w.log if e == ("foreign", p))
+        reached = checker_pos is None or p > checker_pos or first_bad_pre is None
+        if n != (1 if reached else 0):
+            ok = False
     # every contract of the stack is enforced: each was evaluated unless an earlier one failed
     witness = len(pres) + len(posts) >= 2 and "foreign" in [SYM[s] for s in seq] and got[0] == "ret"
     note(("stack", flavour, seq, bo, got[0]), witness)
